@@ -113,11 +113,46 @@ def read_lines(p):
 
 
 def run_model(ops_path, out_path):
-    with open(ops_path, "rb") as fin:
-        p = subprocess.run([DRIVER], stdin=fin, stdout=subprocess.PIPE, stderr=subprocess.PIPE, timeout=3600)
+    """run the Lean driver on the ops file. Large files are cut at lines that reset the driver's whole state
+    (`new`, `newp`, `cnew`, `pcnew`) and the pieces run in parallel; the outputs are concatenated in order."""
+    data = open(ops_path, "rb").read()
+    pieces = [data]
+    if len(data) > 4_000_000:
+        lines = data.split(b"\n")
+        if lines and lines[-1] == b"":
+            lines.pop()
+        starts = [i for i, l in enumerate(lines) if l.startswith((b"new ", b"newp ", b"cnew ", b"pcnew "))]
+        if len(starts) > 32:
+            want = 16
+            per = len(lines) // want + 1
+            cuts, nxt = [0], per
+            for i in starts:
+                if i >= nxt:
+                    cuts.append(i)
+                    nxt = i + per
+            cuts.append(len(lines))
+            pieces = [b"\n".join(lines[a:b]) + b"\n" for a, b in zip(cuts, cuts[1:]) if b > a]
+    procs = []
+    for pc in pieces:
+        pr = subprocess.Popen([DRIVER], stdin=subprocess.PIPE, stdout=subprocess.PIPE, stderr=subprocess.PIPE)
+        procs.append(pr)
+    import threading
+    outs = [None] * len(pieces)
+    rcs = [0] * len(pieces)
+
+    def feed(i):
+        o, _ = procs[i].communicate(pieces[i], timeout=7200)
+        outs[i] = o
+        rcs[i] = procs[i].returncode
+    ths = [threading.Thread(target=feed, args=(i,)) for i in range(len(pieces))]
+    for t in ths:
+        t.start()
+    for t in ths:
+        t.join()
     with open(out_path, "wb") as f:
-        f.write(p.stdout)
-    return p.returncode
+        for o in outs:
+            f.write(o or b"")
+    return max(abs(r) for r in rcs) if rcs else 0
 
 
 class Run:
